@@ -1,6 +1,11 @@
 /-
 Driver for the C15 family (`c15 …`):
   sim     <leaf> q T(q·q) c inv            similarity_transform
+  simf    <leaf> q T(q·q) c flag           the same with a flag *object* for `inverse=`
+                                            (`Model/PyFlag.lean`): `b0|b1` bool, `i<k>` int, `nb0|nb1`
+                                            numpy.bool_, `ni<k>` NumPy integer, `f<p/q>` float, `none`,
+                                            `s:<text>` str, `a0|a1` 0-d bool array; the model computes the
+                                            truth value
   reach   <leaf>                            reachable_form
   obsv    <leaf>                            observable_form
   canon   form <leaf>                       canonical_form  (form: reachable|observable|other)
@@ -17,6 +22,7 @@ computed by Faddeev–LeVerrier over ℚ and its contract `p(A) = 0` is checked 
 import CtrlVerif.Driver.SS
 import CtrlVerif.Model.CanonicalDyn
 import CtrlVerif.Model.Minreal
+import CtrlVerif.Model.PyFlag
 
 namespace CtrlVerif.Driver.Canon
 
@@ -94,6 +100,30 @@ def pOptRat : P (Option Q) := do
   | some "_" => let _ ← tok; pure none
   | _ => pure (some (← pRat))
 
+/-- a flag object (`Model/PyFlag.lean`) -/
+def pFlag : P PyFlag := do
+  let t ← tok
+  let ratOf (u : String) : P PyFlag :=
+    match parseRat u with
+    | some v => pure (.pyFloat v)
+    | none => throw s!"flag:{t}"
+  let intOf (u : String) (k : Int → PyFlag) : P PyFlag :=
+    match u.toInt? with
+    | some v => pure (k v)
+    | none => throw s!"flag:{t}"
+  if t == "b0" then pure (.pyBool false)
+  else if t == "b1" then pure (.pyBool true)
+  else if t == "nb0" then pure (.npBool false)
+  else if t == "nb1" then pure (.npBool true)
+  else if t == "a0" then pure (.arr0 false)
+  else if t == "a1" then pure (.arr0 true)
+  else if t == "none" then pure .pyNone
+  else if t.startsWith "s:" then pure (.pyStr (String.ofList (t.toList.drop 2)))
+  else if t.startsWith "ni" then intOf (String.ofList (t.toList.drop 2)) .npInt
+  else if t.startsWith "i" then intOf (String.ofList (t.toList.drop 1)) .pyInt
+  else if t.startsWith "f" then ratOf (String.ofList (t.toList.drop 1))
+  else throw s!"flag:{t}"
+
 def canonCmd (form : DSS.Form) (G : DSS Q) : String :=
   let G' := SS.force G
   let (ap, ok) := charCoeffs G'.sys.A
@@ -113,6 +143,16 @@ def run : P String := do
     let inv ← pNat
     let G' := SS.force G
     match DSS.similarity G' q T c (inv != 0) with
+    | .ok y => pure ("ok " ++ SS.showSS y)
+    | .error e => pure (showErr e)
+  | "simf" =>
+    let G ← SS.pLeaf
+    let q ← pNat
+    let T ← pMatSized q q
+    let c ← pRat
+    let flag ← pFlag
+    let G' := SS.force G
+    match DSS.similarityF G' q T c flag with
     | .ok y => pure ("ok " ++ SS.showSS y)
     | .error e => pure (showErr e)
   | "reach" => do let G ← SS.pLeaf; pure (canonCmd .reachable G)
